@@ -271,6 +271,10 @@ class Result:
             json.dump(ev, f, indent=1, sort_keys=True, default=str)
         for what, n in sorted(self.known.items()):
             print("KNOWN-FINDING: property=%s %s (seen %d times)" % (self.prop, what, n))
+        if os.path.isdir(REPLAYS):
+            for fn in os.listdir(REPLAYS):
+                if fn.startswith(self.prop + "-"):
+                    os.remove(os.path.join(REPLAYS, fn))
         if self.violations:
             os.makedirs(REPLAYS, exist_ok=True)
             seen = set()
